@@ -16,6 +16,7 @@ import Driver.Apply
 import Driver.Purity
 import Driver.Schema
 import Driver.FsWrite
+import Driver.Codec
 open Lean
 
 def dispatch (j : Json) : Except String Json := do
@@ -32,6 +33,7 @@ def dispatch (j : Json) : Except String Json := do
   | "purity" => Driver.Purity.handle j
   | "schema" => Driver.Schema.handle j
   | "fswrite" => Driver.FsWrite.handle j
+  | "codec" => Driver.Codec.handle j
   | _ => throw s!"unknown stream {stream}"
 
 partial def loop (hin hout : IO.FS.Stream) : IO Unit := do
